@@ -1,0 +1,18 @@
+//go:build verif
+
+package compose
+
+import "reflect"
+
+// Re-exports for the verification harness of property C07 (build tag verif only).
+
+// VerifC07CheckAssignable is checkAssignable(input, arg): 0 = must not, 1 = must, 2 = may.
+func VerifC07CheckAssignable(input, arg reflect.Type) int {
+	return int(checkAssignable(input, arg))
+}
+
+// VerifC07AssertType reports whether assertType[T](v) holds.
+func VerifC07AssertType[T any](v any) bool {
+	_, ok := assertType[T](v)
+	return ok
+}
